@@ -160,6 +160,8 @@ impl Skellam {
     #[inline]
     pub fn set_mu_1_unchecked(&mut self, mu_1: f64) {
         self.mu_1 = mu_1;
+        // the cached Bessel values depend on mu_1 and mu_2
+        self.bessel_iv_cache.borrow_mut().clear();
     }
 
     /// Get the mu_2 parameter
@@ -217,6 +219,8 @@ impl Skellam {
     #[inline]
     pub fn set_mu_2_unchecked(&mut self, mu_2: f64) {
         self.mu_2 = mu_2;
+        // the cached Bessel values depend on mu_1 and mu_2
+        self.bessel_iv_cache.borrow_mut().clear();
     }
 
     /// Set the cache size on the internal LRU for Bessel Iv calls.
